@@ -8,8 +8,13 @@ package main
 //   h2c         EnableH2C / DisableH2C around Clone: the http2 transport's AllowHTTP flag must follow.
 
 import (
+	"context"
+	"crypto/tls"
 	"fmt"
+	"net"
+	"net/http"
 	"strconv"
+	"time"
 
 	req "github.com/imroc/req/v3"
 	"github.com/imroc/req/v3/verifharness/hk"
@@ -108,4 +113,189 @@ func runH2C(r *hk.Run, e *env) {
 	q.EnableH2C()
 	check("p := C(); q := p.Clone(); q.EnableH2C(); p", p, st{false, false})
 	check("p := C(); q := p.Clone(); q.EnableH2C(); q.Clone()", q.Clone(), st{true, true})
+}
+
+// re-exec: one Request object executed twice (a common way to use req: build a request once, send it to
+// several URLs), possibly with client-level changes in between. Per the property every execution sends
+// the request-level settings plus the client-level settings of THAT moment. A deviation that is exactly
+// what "the client-level headers / cookies / form data of the first execution were written into the
+// Request object" predicts gets a signature of its own (a known finding); anything else is "other".
+func runReExec(r *hk.Run, e *env, rng *hk.Rand, n int) {
+	for i := 0; i < n; i++ {
+		e.reset()
+		c := e.newClient()
+		rc := newRefObj()
+		rc.sl[4] = []int{100, 101}
+		rc.jar, rc.fact = &[]int{}, true
+		rc.tls = &refTLS{}
+		var prog []string
+		clientSetter := func() setter {
+			switch rng.Intn(5) {
+			case 0:
+				return setter{K: "append", F: 0, Vs: []int{rng.Range(1, 9)}}
+			case 1:
+				return setter{K: "mapset", F: 0, Key: rng.Range(1, 4), Val: rng.Range(1, 9)}
+			case 2:
+				return setter{K: "mapset", F: 2, Key: rng.Range(1, 4), Val: rng.Range(1, 9)}
+			case 3:
+				return setter{K: "mapadd", F: 2, Key: rng.Range(1, 4), Val: rng.Range(1, 9)}
+			default:
+				return setter{K: "mapset", F: 1, Key: rng.Range(1, 4), Val: rng.Range(1, 9)}
+			}
+		}
+		apply := func(s setter) {
+			if err := e.clientSet(c, s, 0); err != nil {
+				r.Fail(hk.Failure{Sig: "error:re-exec:set", What: err.Error()})
+			}
+			rc.apply(s)
+			prog = append(prog, "c: "+s.coq())
+		}
+		for j, m := 0, rng.Range(0, 3); j < m; j++ {
+			apply(clientSetter())
+		}
+		q := c.R()
+		rq := newRefObj()
+		for j, m := 0, rng.Range(0, 3); j < m; j++ {
+			var s setter
+			switch rng.Intn(3) {
+			case 0:
+				s = setter{K: "append", F: 0, Vs: []int{rng.Range(1, 9)}}
+			case 1:
+				s = setter{K: "mapset", F: 0, Key: rng.Range(1, 4), Val: rng.Range(1, 9)}
+			default:
+				s = setter{K: "mapset", F: 2, Key: rng.Range(1, 4), Val: rng.Range(1, 9)}
+			}
+			e.reqSet(q, s, 0)
+			rq.apply(s)
+			prog = append(prog, "q: "+s.coq())
+		}
+		// what the code writes into the Request object at its first execution
+		baked := rq.deepCopy()
+		baked.jar, baked.fact = nil, false
+		for k, v := range rc.mp[0] {
+			if len(baked.mp[0][k]) == 0 {
+				baked.mp[0][k] = cpInts(v)
+			}
+		}
+		baked.sl[0] = append(cpInts(rq.sl[0]), rc.sl[0]...)
+		for k, v := range rc.mp[2] {
+			baked.mp[2][k] = append(cpInts(baked.mp[2][k]), v...)
+		}
+		ok := true
+		for x := 1; x <= 2 && ok; x++ {
+			d, err := e.emit(c, q)
+			prog = append(prog, fmt.Sprintf("q.Post() #%d", x))
+			if err != nil {
+				r.Fail(hk.Failure{Sig: "error:re-exec", What: "request execution failed: " + err.Error(), Input: map[string]interface{}{"program": prog}})
+				break
+			}
+			want := refDescribe(rc, rq)
+			if k := firstDiff(want, d); k >= 0 {
+				ok = false
+				sig := fmt.Sprintf("re-exec:%s:other", compNames[k])
+				if x == 1 {
+					sig = "re-exec:first-execution:" + compNames[k]
+				} else if firstDiff(refDescribe(rc, baked), d) < 0 {
+					sig = fmt.Sprintf("re-exec:%s:client-settings-of-first-execution-baked-into-request", compNames[k])
+				}
+				r.Fail(hk.Failure{Sig: sig, What: fmt.Sprintf("execution #%d of one Request object: emitted %s differ from request-level + current client-level settings", x, compNames[k]),
+					Input: map[string]interface{}{"program": append([]string(nil), prog...)}, Got: d[k], Want: want[k]})
+			}
+			if x == 1 && rng.Chance(60) {
+				s := clientSetter()
+				if len(rc.mp[0]) > 0 && rng.Chance(50) { // change a common header the client already has
+					for k := 1; k <= 4; k++ {
+						if v, ok := rc.mp[0][k]; ok {
+							s = setter{K: "mapset", F: 0, Key: k, Val: v[0]%9 + 1}
+							break
+						}
+					}
+				}
+				apply(s)
+			}
+		}
+		r.Count("reexec.programs")
+	}
+	e.reset()
+}
+
+// Options.Clone: reference-typed transport options besides TLS config and Dumper
+func runOptionRefs(r *hk.Run, e *env) {
+	o := req.C()
+	o.GetTransport().SetProxyConnectHeader(http.Header{"X-P": {"1"}})
+	k := o.Clone()
+	k.GetTransport().ProxyConnectHeader.Set("X-P", "2")
+	k.GetTransport().ProxyConnectHeader.Set("X-Q", "3")
+	if got := o.GetTransport().ProxyConnectHeader; got.Get("X-P") != "1" || got.Get("X-Q") != "" {
+		r.Fail(hk.Failure{Sig: "options:proxy-connect-header-shared-by-clone", What: "changing the clone's ProxyConnectHeader changed the original's",
+			Input: map[string]interface{}{"program": "o.GetTransport().SetProxyConnectHeader({X-P:1}); k := o.Clone(); k.GetTransport().ProxyConnectHeader.Set(X-P,2); .Set(X-Q,3); o"},
+			Got:   fmt.Sprint(got), Want: "map[X-P:[1]]"})
+	}
+	r.Count("optionrefs.checks")
+}
+
+// SetTLSFingerprint installs a handshake function; after Clone each client's handshakes must be governed by
+// its OWN TLS settings. The peer is an in-memory TLS server with a self-signed certificate: a client that
+// verifies must fail, a client with InsecureSkipVerify must succeed.
+func runFingerprint(r *hk.Run, e *env) {
+	handshake := func(c *req.Client) error {
+		fn := c.GetTransport().TLSHandshakeContext
+		if fn == nil {
+			return fmt.Errorf("no TLSHandshakeContext")
+		}
+		// loopback TCP, not net.Pipe: a synchronous pipe deadlocks when both sides write (alert vs. handshake flight)
+		ln, err := net.Listen("tcp", "127.0.0.1:0")
+		if err != nil {
+			return fmt.Errorf("listen: %v", err)
+		}
+		defer ln.Close()
+		go func() {
+			b, err := ln.Accept()
+			if err != nil {
+				return
+			}
+			defer b.Close()
+			srv := tls.Server(b, &tls.Config{Certificates: []tls.Certificate{e.serverCert}})
+			srv.SetDeadline(time.Now().Add(20 * time.Second))
+			if srv.Handshake() == nil {
+				buf := make([]byte, 1)
+				srv.Read(buf) // until the client closes
+			}
+		}()
+		a, err := net.Dial("tcp", ln.Addr().String())
+		if err != nil {
+			return fmt.Errorf("dial: %v", err)
+		}
+		defer a.Close()
+		ctx, cancel := context.WithTimeout(context.Background(), 20*time.Second)
+		defer cancel()
+		a.SetDeadline(time.Now().Add(20 * time.Second))
+		_, _, err = fn(ctx, "c19.test:443", a)
+		return err
+	}
+	check := func(prog string, c *req.Client, wantOK bool) {
+		err := handshake(c)
+		if (err == nil) != wantOK {
+			r.Fail(hk.Failure{Sig: "fingerprint:clone-handshake-governed-by-other-clients-tls-config",
+				What:  "a client's uTLS handshake (SetTLSFingerprint) succeeded/failed against a self-signed peer contrary to the client's own InsecureSkipVerify",
+				Input: map[string]interface{}{"program": prog}, Got: fmt.Sprint(err), Want: map[bool]string{true: "handshake succeeds", false: "certificate verification fails"}[wantOK]})
+		}
+		r.Count("fingerprint.checks")
+	}
+	// control: no clone involved
+	o := req.C().SetTLSFingerprintChrome()
+	check("o := C().SetTLSFingerprintChrome(); o", o, false)
+	o.EnableInsecureSkipVerify()
+	check("o := C().SetTLSFingerprintChrome().EnableInsecureSkipVerify(); o", o, true)
+	// the clone turns verification off for itself only
+	p := req.C().SetTLSFingerprintChrome()
+	k := p.Clone()
+	k.EnableInsecureSkipVerify()
+	check("p := C().SetTLSFingerprintChrome(); k := p.Clone(); k.EnableInsecureSkipVerify(); k", k, true)
+	check("p := C().SetTLSFingerprintChrome(); k := p.Clone(); k.EnableInsecureSkipVerify(); p", p, false)
+	// the original turns verification off after cloning: the clone must still verify
+	p2 := req.C().SetTLSFingerprintChrome()
+	k2 := p2.Clone()
+	p2.EnableInsecureSkipVerify()
+	check("p := C().SetTLSFingerprintChrome(); k := p.Clone(); p.EnableInsecureSkipVerify(); k", k2, false)
 }
